@@ -504,10 +504,14 @@ namespace Pistache::Rest
                 return Route::Status::Match;
         }
 
-        auto& r              = routes[req.method()];
-        const auto sanitized = SegmentTreeNode::sanitizeResource(resource);
+        // The router is shared by all worker threads: look the method's routes up
+        // without inserting an entry for a method that has none.
+        const auto methodRoutes = routes.find(req.method());
+        const auto sanitized    = SegmentTreeNode::sanitizeResource(resource);
         const std::string_view path { sanitized.data(), sanitized.size() };
-        auto result = r.findRoute(path);
+        std::tuple<std::shared_ptr<Route>, std::vector<TypedParam>, std::vector<TypedParam>> result;
+        if (methodRoutes != routes.end())
+            result = methodRoutes->second.findRoute(path);
 
         auto route = std::get<0>(result);
         if (route != nullptr)
